@@ -351,6 +351,40 @@ def parse_sim_behaviours(out, marker="BEHAVIOUR"):
     return res
 
 
+def tuples(out, tag):
+    """All  <<"tag", v1, v2, ...>>  tuples printed by TLC (PrintT), robust against TLC wrapping long tuples
+    over several lines. Returns a list of lists; elements are int, str, or raw text (sets/records)."""
+    res = []
+    for m in re.finditer(r'<<\s*"%s"\s*,(.*?)>>(?=\s*(?:\n|$))' % re.escape(tag), out, re.S):
+        body = re.sub(r'\s+', ' ', m.group(1)).strip()
+        elems, depth, cur, instr = [], 0, "", False
+        for ch in body:
+            if ch == '"' :
+                instr = not instr
+            if not instr:
+                if ch in "{[(<":
+                    depth += 1
+                elif ch in "}])>":
+                    depth -= 1
+                elif ch == "," and depth == 0:
+                    elems.append(cur.strip())
+                    cur = ""
+                    continue
+            cur += ch
+        if cur.strip():
+            elems.append(cur.strip())
+        vals = []
+        for e in elems:
+            if re.fullmatch(r'-?\d+', e):
+                vals.append(int(e))
+            elif len(e) >= 2 and e[0] == '"' and e[-1] == '"':
+                vals.append(e[1:-1])
+            else:
+                vals.append(e)
+        res.append(vals)
+    return res
+
+
 def sample(rng, items, k):
     items = list(items)
     if len(items) <= k:
